@@ -33,6 +33,15 @@ REGISTRATION = {
 MODULES = ["OllamaVerif.Properties.C06"]
 THEOREMS = [
     "OllamaVerif.C06.mask_exact",
+    "OllamaVerif.C06.mask_exact_all_histories",
+    "OllamaVerif.C06.inv_run",
+    "OllamaVerif.C06.startForward_inv",
+    "OllamaVerif.C06.wrapper_mask_exact",
+    "OllamaVerif.C06.wrapper_rejected_batch_leaves_history",
+    "OllamaVerif.C06.startForward_unwind_abs",
+    "OllamaVerif.C06.unwind_finishForward_abs",
+    "OllamaVerif.C06.wStart_ok",
+    "OllamaVerif.C06.wStart_full",
     "OllamaVerif.C06.mask_exact_of_covers",
     "OllamaVerif.C06.startForward_covers",
     "OllamaVerif.C06.inv_init",
